@@ -26,7 +26,8 @@
 EXTENDS IndelMap
 
 CONSTANTS UseLen,     \* receivers of length <= UseLen
-          PairLen     \* CigarParser: pairs of rows of length <= PairLen
+          PairLen,    \* CigarParser: pairs of rows of length <= PairLen
+          DeepLen     \* three-call compositions (slice of slice, slice of rc of slice): length <= DeepLen
 
 ---------------------------------------------------------------------------
 (* CIGAR                                                                    *)
@@ -115,7 +116,8 @@ UseNext ==
              \/ ASliceRc(r[1], r[2])
              \/ AUnknownSlice(r[1], r[2])
              \/ \E t \in Intervals(r[2] - r[1]) :
-                   ASliceSlice(r[1], r[2], t[1], t[2]) \/ ASliceRcSlice(r[1], r[2], t[1], t[2])
+                   /\ Len(g) <= DeepLen
+                   /\ (ASliceSlice(r[1], r[2], t[1], t[2]) \/ ASliceRcSlice(r[1], r[2], t[1], t[2]))
        \/ \E cs \in CL[Len(g)] : AFeature(cs)
 
 UseSpec == UseInit /\ [][UseNext]_vars
